@@ -26,7 +26,7 @@ import (
 )
 
 func TestMain(m *testing.M) {
-	ev.Note("rule", "C06: schedules as data. The build overlay generated from the working tree calls a hook before every statement of atp/client.go and atp/server.go (the yield-point table is re-derived on every run); a delay plan is a list of (point, occurrence, delay): the hook sleeps 4-10 ms the n-th time the point is reached. Real client and real RunATPServer talk over unbuffered pipes and run a session history: three serial Execute calls; two concurrent ones followed by a third; a gated step that receives a signal while running, then another call; a step-fatal error followed by a success; an error without run ID broadcast to a pending run (while its step is still running, and racing its result), followed by overlapping calls; two overlapping calls that carry the same run ID, followed by overlapping calls; two histories against a correctly behaving harness peer that emits signals for its runs (the SDK's own server never does), taken by one caller and not by another; Close at the end or concurrently with the last result. Quick tier: every point that the history reaches x occurrence {1,2} x every history (exhaustive single-delay sweep); thorough tier: additionally all ordered pairs of reached points on two histories and rapid-generated plans of 1-3 delays. Oracle: every Execute returns exactly once with its own run's result, Close returns, the server returns, and no goroutine with a frame in the client remains afterwards. A call that has not returned after 2 s (200x the total delay) is only reported if the session is provably quiescent: all planned delays are over and two goroutine dumps 300 ms apart show identical parked frames; otherwise the trial is waited out (30 s) or counted as inconclusive. Non-trivial: the planned point was actually reached at the planned occurrence; distinct by (history, plan).")
+	ev.Note("rule", "C06: schedules as data. The build overlay generated from the working tree calls a hook before every statement of atp/client.go and atp/server.go (the yield-point table is re-derived on every run); a delay plan is a list of (point, occurrence, delay): the hook sleeps 4-10 ms the n-th time the point is reached. Real client and real RunATPServer talk over unbuffered pipes and run a session history: three serial Execute calls; two concurrent ones followed by a third; a gated step that receives a signal while running, then another call; a step-fatal error followed by a success; an error without run ID broadcast to a pending run (while its step is still running, and racing its result), followed by overlapping calls; two overlapping calls that carry the same run ID, followed by overlapping calls; two histories against a correctly behaving harness peer that emits signals for its runs (the SDK's own server never does), taken by one caller and not by another, or handled together with the caller's own signals by one goroutine over unbuffered channels; Close at the end or concurrently with the last result. Quick tier: every point that the history reaches x occurrence {1,2} x every history (exhaustive single-delay sweep); thorough tier: additionally all ordered pairs of reached points on two histories and rapid-generated plans of 1-3 delays. Oracle: every Execute returns exactly once with its own run's result, Close returns, the server returns, and no goroutine with a frame in the client remains afterwards. A call that has not returned after 2 s (200x the total delay) is only reported if the session is provably quiescent: all planned delays are over and two goroutine dumps 300 ms apart show identical parked frames; otherwise the trial is waited out (30 s) or counted as inconclusive. Non-trivial: the planned point was actually reached at the planned occurrence; distinct by (history, plan).")
 	ev.RegisterReplay("trial", func(t *testing.T, raw json.RawMessage) {
 		var c Trial
 		if err := json.Unmarshal(raw, &c); err != nil {
@@ -212,6 +212,16 @@ func emittingPeer(in io.ReadCloser, out io.WriteCloser, gates *atpx.Gates) {
 				}
 				send(atp.MessageTypeWorkDone, run, atp.WorkDoneMessage{StepID: ws.StepID, OutputID: "success", OutputData: map[string]any{"tag": run, "n": int64(len(run))}})
 			}()
+		case atp.MessageTypeSignal:
+			// runs named k...: every signal from the client is answered by a signal to the client
+			if strings.HasPrefix(m.RunID, "k") {
+				run := m.RunID
+				running.Add(1)
+				go func() {
+					defer running.Done()
+					send(atp.MessageTypeSignal, run, atp.SignalMessage{SignalID: "echo", Data: map[string]any{"x": int64(3)}})
+				}()
+			}
 		case atp.MessageTypeClientDone:
 			return
 		}
@@ -366,7 +376,7 @@ func anyRunnable(gs []string) bool {
 }
 
 // Histories. Each returns a verdict; it must leave no call outstanding.
-var histories = []string{"serial3", "concurrent2plus1", "signal", "error_then_success", "close_races_last", "broadcast_error", "broadcast_error_concurrent", "same_run_id", "emit_unwatched", "emit_watched"}
+var histories = []string{"serial3", "concurrent2plus1", "signal", "error_then_success", "close_races_last", "broadcast_error", "broadcast_error_concurrent", "same_run_id", "emit_unwatched", "emit_watched", "emit_sequential"}
 
 // emitting reports whether the history runs against the harness peer that emits signals.
 func emitting(history string) bool { return strings.HasPrefix(history, "emit_") }
@@ -522,6 +532,43 @@ func runHistory(name string, s *session, h *hookState) verdictT {
 			return verdictT{msg: "the channel for the signals emitted by j1 was not closed after Execute(j1) returned", class: "signals_channel_open"}
 		}
 		if v := wait(s.execute("j3", "success", "", nil)); v.class != "" {
+			return v
+		}
+	case "emit_sequential":
+		// signals in both directions handled by ONE caller goroutine over unbuffered channels, the plain way to use the
+		// two channel parameters: it sends its signals one after the other and only then turns to the signals the step
+		// emitted in the meantime (two at the start of the run, one in answer to each of its own)
+		toStep := make(chan schema.Input)
+		from := make(chan schema.Input)
+		c1 := s.executeEmitting("k1", "do", "success", "gate-k1", toStep, from)
+		if !s.gates.Wait("started:k1", 30*time.Second) {
+			return verdictT{class: "inconclusive"}
+		}
+		seq := make(chan struct{})
+		var got atomic.Int64
+		go func() {
+			defer close(seq)
+			toStep <- schema.Input{RunID: "k1", ID: "poke", InputData: map[string]any{"x": int64(1)}}
+			toStep <- schema.Input{RunID: "k1", ID: "poke", InputData: map[string]any{"x": int64(2)}}
+			close(toStep)
+			for range from {
+				got.Add(1)
+				if got.Load() == 4 {
+					s.gates.Open("gate-k1")
+				}
+			}
+		}()
+		if v := await(seq, h, "the caller that sends two signals and then receives the emitted ones"); v.class != "" {
+			s.gates.Open("gate-k1")
+			return v
+		}
+		if v := wait(c1); v.class != "" {
+			return v
+		}
+		if n := got.Load(); n != 4 {
+			return verdictT{msg: fmt.Sprintf("the caller of k1 received %d of the 4 signals its step emitted before the channel was closed", n), class: "signals_lost"}
+		}
+		if v := wait(s.execute("k2", "success", "", nil)); v.class != "" {
 			return v
 		}
 	case "same_run_id":
@@ -806,7 +853,7 @@ func TestSingleDelaySweep(t *testing.T) {
 	if sh, _ := ev.Shard(); sh == 0 {
 		ev.Note("points_never_reached_by_the_histories", fmt.Sprintf("%d: %s", len(names), strings.Join(names, "; ")))
 	}
-	ev.Exhaustive("single-delay sweep: every reached yield point x occurrence {1,2} x 10 histories")
+	ev.Exhaustive("single-delay sweep: every reached yield point x occurrence {1,2} x 11 histories")
 }
 
 // TestPairSweep (thorough): all ordered pairs of reached points on two histories.
